@@ -306,4 +306,50 @@ func init() {
 		register(&PropSpec{ID: pr.id, Pkgs: []string{"seat_manager"}, Jobs: smJobs, AssertPrefix: []string{pr.id + "."}, Covers: smCovers, Bounds: smBounds, Outside: smOutside, Assumptions: smAssume,
 			Explanation: "seat_manager.SeatManager executed symbolically one operation at a time from arbitrary invariant-satisfying states: " + pr.expl})
 	}
+
+	// ---- regulator: C09 C19 C20 ----
+	regJobs := func(tier string) []sym.Job {
+		var js []sym.Job
+		add := func(n, late, k, sweeps int) {
+			js = append(js, sym.Job{Pkg: "regulator", Harness: "Harness_Reg_Unroll", Args: []int{n, late, k, sweeps}})
+		}
+		if tier == "thorough" {
+			for n := 0; n <= 24; n++ {
+				add(n, 0, 1, 3)
+			}
+			for n := 2; n <= 16; n++ {
+				add(n, 2, 2, 3)
+			}
+			for _, n := range []int{6, 9, 13} {
+				add(n, 3, 3, 0)
+			}
+		} else {
+			for n := 0; n <= 13; n++ {
+				add(n, 0, 1, 2)
+			}
+			for _, n := range []int{5, 7, 10} {
+				add(n, 2, 2, 2)
+			}
+		}
+		return js
+	}
+	regBounds := func(tier string) []string {
+		if tier == "thorough" {
+			return []string{"settings: every (max, min) with 2 <= min <= max <= 10 (symbolic)", "histories from NewRegulator: N <= 24 registrants in one batch before the start, start, 0/2/3 late registrants, up to 3 table syncs with 0..2 eliminations on any live table, optional registration deadline, then 3 sweeps without eliminations in every rotation order followed by one sweep that must be idle", "callbacks never fail; map order: insertion"}
+		}
+		return []string{"settings: every (max, min) with 2 <= min <= max <= 10 (symbolic)", "histories from NewRegulator: N <= 13 registrants in one batch before the start, start, 0/2 late registrants, up to 2 table syncs with 0..2 eliminations on any live table, optional registration deadline, then 2 sweeps without eliminations in every rotation order followed by one sweep that must be idle", "callbacks never fail; map order: insertion"}
+	}
+	regOutside := []string{"max players per table above 10; more registrants / longer histories than stated; several registration batches before the start", "failing callbacks; concurrent calls (the regulator's mutex is not the subject)", "Go map iteration orders other than insertion order (the regulator ranges over its table map)", "C20 is a bounded claim: states needing more sweeps than K are counterexamples only within the explored histories"}
+	regAssume := append([]string{"float64 arithmetic of the water-level formulas lowered to exact integer arithmetic under range obligations |x| < 2^26 (engine/sym/float.go); divisions by small symbolic divisors are case-split over constants", "tables follow instructions: released / received / broken exactly as SyncState says (the protocol of the repository's own tests)"}, commonAssumptions...)
+	regCovers := func(tier string) []string {
+		return []string{"reg.started-with-tables", "reg.release", "reg.receive", "reg.break", "reg.settled"}
+	}
+	for _, pr := range []struct{ id, expl string }{
+		{"C09", "identity (every alive player in exactly one place, never handed out twice) and counter clauses after every operation; refusals"},
+		{"C19", "capacity of every requestTableFn / assignPlayersFn / sync hand-out, no table before start or before min registrants, initial tables get at least min"},
+		{"C20", "K sweeps without eliminations reach a state where a further sweep is idle; a broken table hands back all players"},
+	} {
+		register(&PropSpec{ID: pr.id, Pkgs: []string{"regulator"}, Jobs: regJobs, AssertPrefix: []string{pr.id + "."}, Covers: regCovers, Bounds: regBounds, Outside: regOutside, Assumptions: regAssume,
+			Explanation: "regulator executed symbolically from NewRegulator with symbolic (max, min): " + pr.expl})
+	}
 }
